@@ -468,8 +468,11 @@ func (f ForkId) Match(ref map[*syntax.CallStm]syntax.CollectionIndex,
 							Source: src,
 						},
 					}
-					if src.CallMode() != result[i].Id.Mode() {
+					if m := result[i].Id.Mode(); src.CallMode() != m &&
+						m != syntax.ModeNullMapCall {
 						// Should not be possible - checked during static analysis.
+						// A source which turned out to be empty or null at
+						// runtime matches any mode.
 						panic(result[i].GoString() + " from " + j.Mode().String())
 					}
 				} else {
@@ -492,7 +495,8 @@ func (f ForkId) Match(ref map[*syntax.CallStm]syntax.CollectionIndex,
 									Source: src,
 								},
 							}
-							if src.CallMode() != result[i].Id.Mode() {
+							if m := result[i].Id.Mode(); src.CallMode() != m &&
+								m != syntax.ModeNullMapCall {
 								// Should not be possible - checked during static analysis.
 								panic(result[i].GoString() + " from " + j.Mode().String())
 							}
